@@ -152,7 +152,7 @@ CHECKS = {
             "step that the streamer machine touches exactly the bytes of the elements scheduled for that step (spatial boxes "
             "expanded); the programmed bounds/strides must realise the stride pattern (collapse only for stride-0 reuse dims).",
             "shapes/layouts enumerated (alu 1-D/2-D i64, gemmx matmul i8->i32/i8, identity/strided/offset/TSL chosen or explicit 2- and "
-            "3-level); xDMA extension rewrites and gemm-with-add/rescale-only kernels not covered; known finding: layout offsets dropped.",
+            "3-level); xDMA extension rewrites, broadcast-bias gemm and rescale-only kernels not covered (four-operand gemm with full-matrix C and the same buffer as both inputs are); known finding: layout offsets dropped.",
             "concrete pipeline observation + z3 queries over symbolic iteration points / temporal steps (LIA with concrete div/mod)", "3/C02"),
     "C09": (OT,
             "The real set-memory-layout (tiled=true/false) runs on dart.schedule ops (generated gemmx schedules over all loop orders of "
@@ -186,7 +186,7 @@ CHECKS = {
     "C12": (TV,
             "Translation validation on a buffer-contents machine: generated functions (arguments, allocations, a constant global, a "
             "memref-typed constant, row-tile subviews with static and symbolic offsets, accelerator operations as linalg.generic / "
-            "dart.operation in any order and inside loops with symbolic trip counts, copies and other consumers on the original "
+            "dart.operation in any order, inside loops with symbolic trip counts and in both branches of conditionals, copies and other consumers on the original "
             "buffers, optional returned buffer, a family where one constant is tiled by several views) run before and after "
             "alloc-to-global, set-memory-space, layout casts to random dense tiled-strided layouts on accelerator operands (as "
             "set-memory-layout places them), realize-memref-casts. Buffers are z3 arrays with symbolic contents; the after-program "
@@ -200,9 +200,9 @@ CHECKS = {
             "by signature only, using a taint analysis of the after-run that never decides an obligation.",
             "bounded symbolic execution of before/after IR on z3 arrays + per-element equalities and layout-address identities discharged by z3", "3/C12"),
     "C13": (OT,
-            "Generated functions mixing memref.copy (data mover), linalg.generic (compute core) and un-dispatched consumers on shared "
+            "Generated functions mixing memref.copy (data mover), linalg.generic and dart streaming regions (compute core / xDMA) and un-dispatched consumers on shared "
             "allocations and function arguments, subviews with symbolic offsets, nested loops with symbolic and constant (partial "
-            "last tile, single trip) ranges, pre-existing barriers and deallocs go through the real insert-sync-barrier. The output "
+            "last tile, single trip) ranges, conditionals with symbolic conditions, pre-existing barriers and deallocs go through the real insert-sync-barrier. The output "
             "is executed on a barrier-synchronised multi-core machine (symbolic IR interpreter): barriers cut each path into epochs "
             "and for every pair of accesses in one epoch that can come from different cores with at least one write, z3 proves the "
             "two regions (root buffer, symbolic element interval) disjoint under the path condition; every path executes the same "
